@@ -44,9 +44,18 @@ theorem assignCapacity_same (x : Stream) (a b : Nat) : Same x (x.assignCapacity 
   · exact Same.trans (b := { x with sendFlow := (x.sendFlow.assignCapacity a).1 }) (by same_fields) (notifyCapacity_same _)
   · same_fields
 
+/-- (stated by hand: `unfold Stream.sendData` produces a term the kernel chokes on) -/
+theorem sendData_fst (x : Stream) (a b : Nat) :
+    (x.sendData a b).1 =
+      (if x.capacity b < ({ x with sendFlow := (x.sendFlow.sendData a).1, bufferedSendData := wrapSubUsize x.bufferedSendData a, requestedSendCapacity := wrapSubU32 x.requestedSendCapacity a } : Stream).capacity b
+        then ({ x with sendFlow := (x.sendFlow.sendData a).1, bufferedSendData := wrapSubUsize x.bufferedSendData a, requestedSendCapacity := wrapSubU32 x.requestedSendCapacity a } : Stream).notifyCapacity
+        else ({ x with sendFlow := (x.sendFlow.sendData a).1, bufferedSendData := wrapSubUsize x.bufferedSendData a, requestedSendCapacity := wrapSubU32 x.requestedSendCapacity a }, [])).1 := rfl
+
 theorem sendData_same (x : Stream) (a b : Nat) : Same x (x.sendData a b).1 := by
-  unfold Stream.sendData; simp only []; split
-  · exact Same.trans (b := { x with sendFlow := (x.sendFlow.sendData a).1, bufferedSendData := wrapSubUsize x.bufferedSendData a, requestedSendCapacity := wrapSubU32 x.requestedSendCapacity a }) (by same_fields) (notifyCapacity_same _)
+  rw [sendData_fst]
+  split
+  · refine Same.trans ?_ (notifyCapacity_same _)
+    same_fields
   · same_fields
 
 theorem waitSend_same (x : Stream) (t : String) : Same x (x.waitSend t) := by unfold Stream.waitSend; same_fields
